@@ -152,10 +152,22 @@ def gen_case(rng):
 
 def make(case):
     from ribs.archives import ProximityArchive
+    kw = dict(local_competition=case["lc"], initial_capacity=case["cap"], qd_score_offset=float(fr(case["off"])),
+              dtype=archlib.dtype_arg(case), extra_fields=archlib.extra_fields(case["layout"]))
+    # options at their documented default are omitted: the default itself is what runs, and the oracles (which read
+    # the case) judge it against the documented value
+    if not case["lc"]:
+        del kw["local_competition"]
+    if case["cap"] == 128:
+        del kw["initial_capacity"]
+    if fr(case["off"]) == 0:
+        del kw["qd_score_offset"]
+    if not case["layout"]:
+        del kw["extra_fields"]
+    if case["dtype"] == "f64" and case.get("forms", {}).get("dtype", "one") == "one":
+        del kw["dtype"]
     return ProximityArchive(solution_dim=case["sol_dim"], measure_dim=case["nd"], k_neighbors=case["k"],
-                            novelty_threshold=float(fr(case["nu"])), local_competition=case["lc"],
-                            initial_capacity=case["cap"], qd_score_offset=float(fr(case["off"])), seed=0,
-                            dtype=archlib.dtype_arg(case), extra_fields=archlib.extra_fields(case["layout"]))
+                            novelty_threshold=float(fr(case["nu"])), seed=0, **kw)
 
 
 def obs_case(case):
